@@ -96,6 +96,9 @@ type Runner struct {
 	conn   *network.OneConnection
 	nconn  int
 	probes []lockProbe
+
+	lastCollector bool               // blocktxn: a compact-block collector existed for the named block before the call
+	lastState     network.VerifState // connection state after the last call (zero if the connection was abandoned)
 }
 
 func NewRunner(e *Env) *Runner { return &Runner{e: e, probes: globalProbes()} }
@@ -204,6 +207,10 @@ func (r *Runner) Do(cs Case) (o Obs) {
 			c.VerifDispatch(m.Cmd, b, cs.has("trusted"))
 			c.VerifDrainSent()
 		}
+		r.lastCollector = false
+		if cs.Cmd == "blocktxn" && len(pl) >= 32 {
+			r.lastCollector = c.VerifCollectorFor(btc.NewUint256(pl[:32]).BIdx()) != nil
+		}
 		if cs.Cmd == "@wire" {
 			ms := c.VerifFetch(pl, 64)
 			o.Branch = fmt.Sprintf("fetched:%d", len(ms))
@@ -235,6 +242,7 @@ func (r *Runner) Do(cs Case) (o Obs) {
 	sort.Strings(o.Locks)
 	if !abandon {
 		st := c.VerifState()
+		r.lastState = st
 		if st.Banit {
 			o.Ban = st.BanReason
 		}
@@ -244,6 +252,7 @@ func (r *Runner) Do(cs Case) (o Obs) {
 			o.Sent = append(o.Sent, fmt.Sprintf("%s:%d", m.Cmd, len(m.Pl)))
 		}
 	} else {
+		r.lastState = network.VerifState{}
 		r.fresh()
 	}
 	return
